@@ -1825,6 +1825,136 @@ func (x *FnIndex) countedLoop(cell *ssa.Alloc) *counted {
 	return nil
 }
 
+// stepsOncePerTrip: the cell is set to one non-negative constant before loop l (by a store
+// that dominates its head) and, inside l, only by `cell = cell + 1`, exactly once on every way
+// round the loop. Returns the constant and the increments.
+func (x *FnIndex) stepsOncePerTrip(cell *ssa.Alloc, l *Loop) (int64, []*ssa.Store, bool) {
+	fn := cell.Parent()
+	var incs, inits []*ssa.Store
+	for _, st := range x.stores[cell] {
+		if st.Parent() != fn {
+			return 0, nil, false
+		}
+		if l.Blocks[st.Block()] {
+			incs = append(incs, st)
+		} else {
+			inits = append(inits, st)
+		}
+	}
+	if len(incs) == 0 || len(inits) == 0 {
+		return 0, nil, false
+	}
+	for _, inc := range incs {
+		bo, ok := inc.Val.(*ssa.BinOp)
+		if !ok || bo.Op != token.ADD || x.directCell(bo.X) != cell {
+			return 0, nil, false
+		}
+		if k, isK := constInt(bo.Y); !isK || k != 1 {
+			return 0, nil, false
+		}
+	}
+	for _, latch := range l.Latches {
+		n := 0
+		for _, inc := range incs {
+			if inc.Block().Dominates(latch) {
+				n++
+			}
+		}
+		if n != 1 {
+			return 0, nil, false
+		}
+	}
+	if len(incs) > 1 {
+		head := l.Head.Instrs[0]
+		for _, a := range incs {
+			for _, b := range incs {
+				if a == b {
+					continue
+				}
+				if _, reach := pathExists(fn, a, func(in ssa.Instruction) bool { return in == ssa.Instruction(b) }, func(in ssa.Instruction) bool { return in == head }); reach {
+					return 0, nil, false
+				}
+			}
+		}
+	}
+	var c0 int64
+	dom := false
+	for i, st := range inits {
+		k, isK := constInt(st.Val)
+		if !isK || (i > 0 && k != c0) || k < 0 {
+			return 0, nil, false
+		}
+		c0 = k
+		if st.Block().Dominates(l.Head) {
+			dom = true
+		}
+	}
+	if !dom {
+		return 0, nil, false
+	}
+	return c0, incs, true
+}
+
+// filledFromMap recognises `s[i] = v; i++` in `for _, v := range m` with `s = make([]T, len(m))`
+// and i counting from 0: every value of the map is stored at a position of its own, none is left
+// empty (the same as appending each value to an empty list). st is the store of the element.
+func (x *FnIndex) filledFromMap(st *ssa.Store) (list ssa.Value, m ssa.Value, l *Loop, ok bool) {
+	ia, isIA := st.Addr.(*ssa.IndexAddr)
+	if !isIA {
+		return nil, nil, nil, false
+	}
+	if _, isSl := ia.X.Type().Underlying().(*types.Slice); !isSl {
+		return nil, nil, nil, false
+	}
+	m, l, isR := x.rangedMap(st.Val)
+	if !isR || l != x.InnermostLoop(st.Block()) {
+		return nil, nil, nil, false
+	}
+	ld, _ := x.lastLoad(ia.Index).(*ssa.UnOp)
+	ctr := x.directCell(x.lastLoad(ia.Index))
+	if ctr == nil || ld == nil {
+		return nil, nil, nil, false
+	}
+	c0, incs, okStep := x.stepsOncePerTrip(ctr, l)
+	if !okStep || c0 != 0 {
+		return nil, nil, nil, false
+	}
+	// the position is read before the step of its trip
+	for _, inc := range incs {
+		if _, back := pathExists(st.Parent(), inc, func(in ssa.Instruction) bool { return in == ssa.Instruction(ld) }, func(in ssa.Instruction) bool { return in == l.Head.Instrs[0] }); back {
+			return nil, nil, nil, false
+		}
+	}
+	// one store per trip: on every way round, unconditionally
+	if len(x.GuardsOfInLoop(st.Block())) != 0 {
+		return nil, nil, nil, false
+	}
+	// the list: made with one position per key of this map, and not assigned in the loop
+	var mk *ssa.MakeSlice
+	if cell := x.Cell(ia.X); cell != nil {
+		for _, s2 := range x.stores[cell] {
+			if l.Blocks[s2.Block()] || s2.Parent() != st.Parent() {
+				return nil, nil, nil, false
+			}
+			ms, isMk := x.Origin(s2.Val).(*ssa.MakeSlice)
+			if !isMk || (mk != nil && mk != ms) {
+				return nil, nil, nil, false
+			}
+			mk = ms
+		}
+	} else if ms, isMk := x.Origin(ia.X).(*ssa.MakeSlice); isMk {
+		mk = ms
+	}
+	if mk == nil || l.Blocks[mk.Block()] {
+		return nil, nil, nil, false
+	}
+	a, isLen := builtinCall(x.Origin(mk.Len), "len")
+	if !isLen || !x.sameValue(a[0], m) {
+		return nil, nil, nil, false
+	}
+	return ia.X, m, l, true
+}
+
 // indexedSlice recognises the element of an index loop, `s[i]` inside
 // `for i := c0; i < n; i++`, as the element of ranging s[c0:n] (s itself when
 // c0 == 0 and n == len(s)): the loop visits exactly those elements, in order.
